@@ -193,9 +193,10 @@ def _required(c, M, order, n, t, body):
         prem, s, tm = S.required_sizes(c.fp, M, o, a, b, t)
         hs, goal = body(o, m, a, b, tm)
         if hs is None:
-            c.ex.notes.append('hint lookup failed in %s/%s: the code no longer performs the expected '
-                              'float operation; proof attempted without lemma instances'
-                              % (c.ex.qualname, c.case.name))
+            if len(c.fp.ops) > 4:      # (the early `return 0` path performs no float operation at all)
+                c.ex.notes.append('hint lookup failed in %s/%s: the code no longer performs the expected '
+                                  'float operation; proof attempted without lemma instances'
+                                  % (c.ex.qualname, c.case.name))
             hs = []
         c.extra.extend(sim_instances(M, t, o, a, b, tm) + hs)
         return z3.Implies(prem, goal)
@@ -271,7 +272,12 @@ class SizeUpperBound(_Arith):
         self.params = OD([('num_tokens', INT), ('sim_measure_type', vstr(M)), ('threshold', self.thr_ty)])
 
     def requires(self, c):
-        return [('sizes', size_ok(c['num_tokens'])), ('threshold', valid_threshold(self.M, R_(c['threshold'])))]
+        r = [('sizes', size_ok(c['num_tokens'])), ('threshold', valid_threshold(self.M, R_(c['threshold'])))]
+        if self.M in SETM:
+            # extra precondition, recorded as known finding D8 (not a documented precondition): for
+            # thresholds below ~1e-150 the quotient overflows / the squared threshold underflows to 0
+            r.append(('threshold-not-extreme', R_(c['threshold']) >= rv(Fraction(1, 2 ** 400))))
+        return r
 
     def setup(self, c):
         return self.setup_common(c, [c['num_tokens']])
@@ -301,23 +307,29 @@ class SizeUpperBound(_Arith):
 
 def ub_range_instances(M, log, t, x):
     rx = R_(x)
+    TL = rv(Fraction(1, 2 ** 400))           # threshold-not-extreme (known finding D8)
     if M == 'JACCARD':
         q = log.find('div', rx, t)
-        return [inst('quot_lower', q.e, t, rx, rv(1))] if q else []
+        return [inst('quot_lower', q.e, t, rx, rv(1)),
+                inst('quot_abs', q.e, t, rx, TL, rv(2 ** 31))] if q else []
     if M == 'DICE':
         w = log.find('sub', rv(2), t)
         h = w and log.find('div', w.r, t)
         if not h:
             return []
         return [inst('quot_lower', h.e, t, w.r, rv(1)), inst('mul_nonneg', h.r, rx),
-                inst('mul_lower_scaled', h.r, rx, rv(1))]
+                inst('mul_lower_scaled', h.r, rx, rv(1)),
+                inst('quot_abs', h.e, t, w.r, TL, rv(4)),
+                inst('mul_abs', h.r, rx, rv(2 ** 404), rv(2 ** 31))]
     if M == 'COSINE':
         t2 = log.find('mul', t, t)
         q = t2 and log.find('div', rx, t2.r)
         if not q:
             return []
         return [inst('quot_lower', q.e, t2.r, rx, rv(1)),
-                inst('mul_upper', t, t, rv(1), rv(1)), inst('mul_nonneg', t, t)]
+                inst('mul_upper', t, t, rv(1), rv(1)), inst('mul_nonneg', t, t),
+                inst('mul_lower', t, t, TL, TL),
+                inst('quot_abs', q.e, t2.r, rx, rv(Fraction(1, 2 ** 801)), rv(2 ** 31))]
     return []
 
 
